@@ -30,6 +30,8 @@ type Ctx struct {
 	Viol    []Violation
 	Known   []KnownFinding
 	KnownHit map[string]string
+	seenViol map[string]bool
+	SigHook  func(doc []byte, sig string) string
 }
 
 type checkFn func(c *Ctx)
